@@ -288,6 +288,25 @@ Theorem C10_api_crash_safe :
 Proof. exact api_crash_safe_src. Qed.
 Print Assumptions C10_api_crash_safe.
 
+(* A history of calls IS a history of primitives with crashes, so the theorems about [runc]
+   (completed effects survive, nothing is invented, cascades, GC) speak about API histories. *)
+Theorem C10_api_history_is_primitive_history :
+  forall (H : list N -> N) (shuffle : nat -> list entry -> list entry),
+    (forall c l e, In e (shuffle c l) <-> In e l) ->
+    forall (mt dec : N -> bool) (h : list acall),
+    exists hs, runa H shuffle src_inplace src_unlink_first true mt dec h init
+               = runc H shuffle src_inplace src_unlink_first true hs init.
+Proof. exact runa_is_runc_src. Qed.
+Print Assumptions C10_api_history_is_primitive_history.
+
+(* Before the repairs of audit F2 (Push kept the undecodable manifest, Tag accepted it):
+   refuted -- loadIndex fails on the resulting index. *)
+Theorem C10_api_reopen_refuted_undecodable :
+  exists (mt dec : N -> bool) (H : list N -> N) (os : list op),
+    load_okb mt dec (sfs (run H (fun _ l => l) false false true os init)) = false.
+Proof. exact reopen_refuted_undecodable. Qed.
+Print Assumptions C10_api_reopen_refuted_undecodable.
+
 (* Nothing that a reader looks at is ever written in place: every create / truncate /
    write / chmod micro-step of every operation targets a temporary (ingest/<d>_<rnd> or
    index.json.tmp<rnd>); oci-layout, index.json and blobs/ change by rename and unlink
